@@ -10,7 +10,7 @@ def scenario(rng, i):
     """seal a tree (flat or nested, one or more generations), mutate it, then run verify, diff and create"""
     tree = gen.gen_tree(rng, max_entries=12)
     cur = copy.deepcopy(tree)
-    pats = PATTERNS if i % 4 == 0 else None
+    pats = (PATTERNS + gen.path_patterns(tree, rng, k=3)) if i % 4 == 0 else None
     steps = []
     for d in rng.sample(gen.all_dirs(cur), min(len(gen.all_dirs(cur)), rng.choice([0, 0, 1, 2]))):
         steps.append({"op": "create", "root": d, "fmts": gen.gen_fmts(rng)})
@@ -31,7 +31,7 @@ def scenario(rng, i):
                 st["keep_mtime"] = True
         steps.append(st)
         cur = world.tree_apply(cur, st)
-    order = [{"op": "verify"}, {"op": "diff"}, {"op": "create", "fmts": gen.gen_fmts(rng)}]
+    order = [{"op": "verify"}, {"op": "diff"}, {"op": "create", "fmts": gen.gen_fmts(rng), **({"n": True} if rng.random() < 0.3 else {})}]
     rng.shuffle(order)
     # create adds a generation, so verify / diff come first in most scenarios
     if rng.random() < 0.7:
